@@ -226,7 +226,7 @@ impl Check for C01 {
     type Case = Case;
     const ID: &'static str = "C01";
     fn runs(t: Tier) -> u64 {
-        t.pick(20_000, 1_500_000)
+        t.pick(100_000, 3_000_000)
     }
     fn generate(rng: &mut Rng, tier: Tier, idx: u64) -> Case {
         let mut wl = rng.sub("workload");
